@@ -8,6 +8,7 @@ R3  script entry points that change the model go through the same module functio
 R4  (shared with C08-R6) energy added by script callbacks reaches the engine
 R5  (shared with C07-R5) script-driven component changes recompute the normalisation cache
 R6  reported atomic gradients include the fit term under the same flag as the applied forces
+R7  the component parameter reader that modifycvcs re-enters keeps unmentioned parameters (self defaults)
 """
 from . import expr as X
 from . import cond as C
@@ -277,6 +278,33 @@ def r3(F, rep):
     rep.add("C20-R3", "modifycvcs|check_keywords", up.loc(), "colvar::update_cvc_config checks the keywords of the new component configuration", ok, func=up.q)
 
 
+def self_default(F, rep, rid, only=None):
+    """Shared with C18-R6 (period / wrapAround)."""
+    rep.rule(rid, "re-entrant parameter reader: colvar::cvc::init() is run again by `modifycvcs` with a partial configuration; every "
+                  "get_keyval() in it that fills a data member uses that same member as its default value, so that parameters "
+                  "the new text does not mention keep their current values")
+    f = F.one("colvar::cvc::init")
+    n = 0
+    for c in X.calls(f):
+        if X.callee_name(c) != "get_keyval":
+            continue
+        a = X.call_args(c)
+        if len(a) < 4:
+            continue
+        t = X.strip(a[2])
+        if t["k"] != "MemberExpr" or not X.key(t, f).startswith("this."):
+            continue
+        if only is not None and t.get("n") not in only:
+            continue
+        n += 1
+        ok = X.key(a[3], f) == X.key(a[2], f)
+        rep.add(rid, "cvc::init|%s" % X.key(a[1], f), f.loc(c), "keyword %s fills `%s`; its default is %s" % (
+            X.key(a[1], f), t.get("n"), "the member itself" if ok else "`%s`" % X.text(a[3], f)[:40]), ok,
+            detail="`cv colvar <name> modifycvcs` with a text that does not repeat this keyword resets the parameter", func=f.q)
+    if n < (2 if only else 6):
+        raise AnalysisBroken("%s: only %d member-filling keywords found in colvar::cvc::init" % (rid, n))
+
+
 def run(F, rep, tier):
     r1(F, rep)
     r2(F, rep)
@@ -297,5 +325,8 @@ def run(F, rep, tier):
     rep.rule("C20-R6", "atomic gradients returned by `getgradients` include the fit term exactly when the forces do: "
                        "cvc::collect_gradients() reads fit_gradients under f_ag_fit_gradients and under no other feature "
                        "(a group fitted on itself carries the term too; f_ag_fitting_group only selects which group)")
+    self_default(F, rep, "C20-R7")
+    from .rules_c13 import unique_rank
+    unique_rank(F, rep, "C20-R8")
     rules_c01.fit_consumers(F, rep, "C20-R6", (
         ("colvar::cvc::collect_gradients", lambda f: [x for x in f.walk() if x["k"] == "MemberExpr" and x.get("n") == "fit_gradients"]),))
